@@ -33,7 +33,7 @@ var (
 
 // c32StubEd25519Verify: see the file comment. Real behaviour unless a C32/C33 harness is running.
 //
-//verif:stub crypto/ed25519.Verify
+// (engine stub for crypto/ed25519.Verify: registered through zz_verif_stubs.go)
 func c32StubEd25519Verify(pub ed25519.PublicKey, msg, sig []byte) bool {
 	w := c32Cur
 	if !c32Active || w == nil || w.cur == nil {
